@@ -279,6 +279,18 @@ def e2e_worker(task: Tuple) -> Dict[str, Any]:
         if cls not in ("identical", "equal-scale"):
             out["findings"].append((cls, code, text, families.show(u)))
             if cls == "unparsable" and " " in text:
+                # text with a magnitude in front reads as a quantity: it must be one of this unit
+                # (no text produced by str() parses to something of a different physical value)
+                try:
+                    asq = Quantity.parse(text)
+                    one = asq.in_unit(u).magnitude
+                    if abs(float(one) - 1) > 1e-9:
+                        out["findings"].append(("str-as-quantity-different-value", code, text, families.show(u)))
+                    out["counts"]["unit-text-read-as-quantity"] = out["counts"].get("unit-text-read-as-quantity", 0) + 1
+                except (measured.parsing.ParseError, KeyError):
+                    pass
+                except Exception as ex:
+                    out["findings"].append(("str-as-quantity-raises", code, text, type(ex).__name__))
                 # the unit alone renders a magnitude in front, but a *quantity* of it folds that
                 # magnitude into its own and must still round-trip to an equal quantity
                 for m in (5, 2.5):
@@ -374,16 +386,24 @@ sys.exit(0)
 STAGED_SRC = r'''
 import importlib, json, sys
 first, texts = sys.argv[1], json.loads(sys.argv[2])
+mode = sys.argv[3] if len(sys.argv) > 3 else "parse"
 import measured
 importlib.import_module("measured." + first)
-from measured import Unit
+from measured import Unit, Quantity
+from measured.json import MeasuredJSONDecoder
 def spec(u):
     return [[u.prefix.base, u.prefix.exponent], [[f.name, e] for f, e in u.factors.items()]]
+def resolve(t):
+    if mode == "parse":
+        return Unit.parse(t)
+    if mode == "quantity":
+        return Quantity(1, t).unit
+    return json.loads(json.dumps({"__measured__": "Quantity", "magnitude": 1, "unit": t}), cls=MeasuredJSONDecoder).unit
 def parse_all():
     out = {}
     for t in texts:
         try:
-            out[t] = spec(Unit.parse(t))
+            out[t] = spec(resolve(t))
         except Exception as e:
             out[t] = type(e).__name__
     return out
@@ -431,11 +451,19 @@ def history_layer(rep: report.Report, tier: str) -> None:
 
 FRESH_SRC = r'''
 import json, sys, measured, measured.systems
-from measured import Unit
+from measured import Unit, Quantity
+from measured.json import MeasuredJSONDecoder
+mode = sys.argv[2] if len(sys.argv) > 2 else "parse"
+def resolve(t):
+    if mode == "parse":
+        return Unit.parse(t)
+    if mode == "quantity":
+        return Quantity(1, t).unit
+    return json.loads(json.dumps({"__measured__": "Quantity", "magnitude": 1, "unit": t}), cls=MeasuredJSONDecoder).unit
 out = {}
 for t in json.loads(sys.argv[1]):
     try:
-        u = Unit.parse(t)
+        u = resolve(t)
         out[t] = [[u.prefix.base, u.prefix.exponent], [[f.name, e] for f, e in u.factors.items()]]
     except Exception as e:
         out[t] = type(e).__name__
@@ -443,12 +471,12 @@ print(json.dumps(out))
 '''
 
 
-def history_replay(first: str, texts: List[str]) -> str:
+def history_replay(first: str, texts: List[str], mode: str = "parse") -> str:
     return "import subprocess, json\n" + f"STAGED = {STAGED_SRC!r}\nFRESH = {FRESH_SRC!r}\n" + \
-        f"texts = {texts!r}\nfirst = {first!r}\n" + """
-p = subprocess.run([sys.executable, '-c', STAGED, first, json.dumps(texts)], capture_output=True, text=True)
+        f"texts = {texts!r}\nfirst = {first!r}\nmode = {mode!r}\n" + """
+p = subprocess.run([sys.executable, '-c', STAGED, first, json.dumps(texts), mode], capture_output=True, text=True)
 late = json.loads(p.stdout.strip().splitlines()[-1])
-f = subprocess.run([sys.executable, '-c', FRESH, json.dumps(texts)], capture_output=True, text=True)
+f = subprocess.run([sys.executable, '-c', FRESH, json.dumps(texts), mode], capture_output=True, text=True)
 ref = json.loads(f.stdout.strip().splitlines()[-1])
 bad = [t for t in texts if late[t] != ref[t]]
 print('staged process:', {t: late[t] for t in bad})
@@ -517,12 +545,27 @@ def main(tier: str, selftest_cases: int = 0) -> int:
         elif cls == "different-value" or cls == "different-dimension":
             toks = ambiguous_tokens(text, orc)
             sig = f"C13:collision:{toks[0]}" if toks else f"C13:collision:{text}"
+        elif cls == "str-as-quantity-different-value":
+            sig = "C13:str-of-a-unit-read-as-a-quantity-has-a-different-value"
         else:
             sig = f"C13:{cls}:{text}"
         groups.setdefault(sig, []).append((cls, code, text, shown))
     rep.coverage["finding_groups"] = {k: len(v) for k, v in sorted(groups.items())}
     for sig, fs in sorted(groups.items()):
         cls, code, text, shown = fs[0]
+        if cls.startswith("str-as-quantity"):
+            rep.violation(sig, f"{len(fs)} unit(s), e.g. str({shown}) = {text!r} reads as a quantity that is not "
+                          f"one {shown}", families.REPLAY_IMPORTS + f"""
+from measured import Quantity
+u = {code}
+text = str(u)
+q = Quantity.parse(text)
+print(repr(text), '->', q, ' in the unit itself:', q.in_unit(u).magnitude)
+if abs(float(q.in_unit(u).magnitude) - 1) > 1e-9:
+    print('REPRODUCED: str() of a unit parses to a quantity of a different physical value'); sys.exit(1)
+sys.exit(0)
+""")
+            continue
         rep.violation(sig, f"{len(fs)} unit(s), e.g. str({shown or code}) = {text!r}: {cls}",
                       e2e_replay(code, cls) if cls not in ("spelling-differs", "spelling-unparsable",
                                                            "quantity-differs", "quantity-unparsable")
